@@ -174,6 +174,17 @@ func c03Gen(c *vh.Ctx, files, strs [][]byte) []c03Job {
 		}
 	}
 
+	// 1c. regex literals in every position the parser compiles them (bare pattern, expression, operand of ~, argument of the
+	// regex builtins, dynamic-regex string constants): well-formed, syntactically invalid, and invalid UTF-8 with and without a
+	// metacharacter in the body — each must be accepted or answered with a positioned error, never a panic (seeded C03-s2:
+	// a "plain literal needs no trial compile" shortcut let /caf\xe9/ through to MustCompile)
+	for _, body := range []string{"abc", "a.c", "caf\xe9", "ab\xc3", "\xff", "\x80x", "a\xffb+", "(\xe9", "[\xff]", "caf\xc3\xa9", "\xf0\x9f", "(", "[", "a{2,1}", "a**", "\\", "a\\/b", "x{1001}", "\xed\xa0\x80", "a|\xfe"} {
+		for _, shape := range []string{"/%s/", "/%s/ { print }", "BEGIN { x = /%s/ }", "$1 ~ /%s/", "{ if ($0 !~ /%s/) next }", "BEGIN { n = split(s, a, /%s/) }", "{ sub(/%s/, \"r\") }", "{ gsub(/%s/, \"r\", $2) }",
+			"BEGIN { print match(s, /%s/) }", "BEGIN { x = s ~ \"%s\" }", "/%s/, /%s/", "!/%s/", "BEGIN { x = 1 }\n\n  /%s/ { y }", "function f(a) { return a ~ /%s/ }"} {
+			addAllPol([]byte(strings.ReplaceAll(shape, "%s", body)), "corpus")
+		}
+	}
+
 	// 2. 1e-forms at every distance from a line end
 	for _, h := range c03ExpHeads {
 		for _, f := range c03ExpForms {
